@@ -19,7 +19,7 @@ PROFILE = {
 
 
 def build_cases(tier, seed):
-    n = 64 if tier == "quick" else 600
+    n = 64 if tier == "quick" else 1500
     cases = []
     for i in range(n):
         s = seed * 100000 + 20000 + i
